@@ -7,11 +7,11 @@ package queue
 // are explicitly mode-aware.
 
 import (
-	"fmt"
 	"bufio"
 	"context"
 	"encoding/json"
 	"errors"
+	"fmt"
 	"io"
 	"io/fs"
 	"os"
@@ -46,9 +46,9 @@ var fsm struct {
 	handles  map[*os.File]*fsHandle
 	encoders map[*json.Encoder]*os.File
 	decoders map[*json.Decoder]*os.File
-	ops      int    // mutating operations so far (crash points)
-	crashAt  int    // -1: never (may be symbolic)
-	torn     bool   // crash inside the write instead of before it
+	ops      int  // mutating operations so far (crash points)
+	crashAt  int  // -1: never (may be symbolic)
+	torn     bool // crash inside the write instead of before it
 	crashed  bool
 	oplog    []string
 	faultAt  int // operation index at which an I/O error is injected (-1: never)
@@ -413,6 +413,42 @@ func fsCopyMeta(m *QueueMetadata) *QueueMetadata {
 		c.TriesCount = map[string]int{}
 		for k, v := range m.TriesCount {
 			c.TriesCount[k] = v
+		}
+	}
+	// struct tags of the real declaration (fsJSONTags is regenerated from the
+	// working tree by qmetagen): "-" drops the field, omitempty drops empty
+	// values, which come back as the zero value
+	drop := func(field string, empty bool) bool {
+		tag := fsJSONTags[field]
+		if tag == "-" {
+			return true
+		}
+		return empty && strings.Contains(tag, ",omitempty")
+	}
+	if drop("MsgMeta", c.MsgMeta == nil) {
+		c.MsgMeta = nil
+	}
+	if drop("From", c.From == "") {
+		c.From = ""
+	}
+	if drop("To", len(c.To) == 0) {
+		c.To = nil
+	}
+	if drop("FailedRcpts", len(c.FailedRcpts) == 0) {
+		c.FailedRcpts = nil
+	}
+	if drop("TemporaryFailedRcpts", len(c.TemporaryFailedRcpts) == 0) {
+		c.TemporaryFailedRcpts = nil
+	}
+	if drop("RcptErrs", len(c.RcptErrs) == 0) {
+		c.RcptErrs = nil
+	}
+	if drop("TriesCount", len(c.TriesCount) == 0) {
+		c.TriesCount = nil
+	}
+	for f, tag := range fsJSONTags {
+		if name := strings.Split(tag, ",")[0]; name != "" && name != "-" && name != f {
+			panic("file model: renamed JSON field " + f + " is not modelled")
 		}
 	}
 	return &c
